@@ -248,6 +248,28 @@ def st_prog(draw, order, nbars, mode="loop", max_ops=14):
         elif key == "gm":
             pre.append([pb, ph, "gm", "deposit", "0.2", "0.2"])
     prog = pre + prog
+    # motifs: short dependent sequences that random interleaving rarely produces (inserted at a random place, in order)
+    for _ in range(draw(st.integers(0, 2))):
+        kinds = [k for k in ("uni", "sq", "opt", "aave", "glp", "gm") if k in order]
+        mk = draw(st.sampled_from(kinds))
+        over = draw(st.sampled_from(["0.5", "1", "1.000001", "1.5", "10"]))
+        if mk == "uni" or (mk == "sq" and draw(st.booleans())):
+            key = "uni" if mk == "uni" else "squni"
+            motif = [[key, "buy", "0.2"], [key, "add", draw(st.integers(-6, 0)), draw(st.integers(7, 14)), "0.5", "0.5"], [key, "remove", 0, draw(st.sampled_from([None, "0.5", over])), False], [key, "collect", 0, over, draw(st.sampled_from([None, over]))]]
+        elif mk == "sq":
+            motif = [["squni", "buy", "0.2"], ["squni", "add", draw(st.integers(-6, -1)), draw(st.integers(7, 14)), "0.5", "0.2"], ["sq", "open", "1", draw(st.sampled_from(["0", "0.5"])), True],
+                     draw(st.sampled_from([["squni", "remove", 0, None, True], ["squni", "remove_all"], ["squni", "collect", 0, None, None], ["sq", "lp_withdraw", 0], ["squni", "add", 0, 1, "0.1", "0.1"]])), ["sq", "burn_withdraw", 0, over, over]]
+        elif mk == "opt":
+            motif = [["opt", "deposit", "0.5"], ["opt", "buy", 0, "2"], ["opt", "sell", 0, draw(st.sampled_from(["1", "2", "3", "45"]))], ["opt", "withdraw", over]]
+        elif mk == "aave":
+            motif = [["aave", "supply", "@funded:0", "0.5", True], ["aave", "borrow", draw(st.sampled_from(["WETH", "USDC", "DAI"])), "0.9"], ["aave", "repay", "@debt:0", over, draw(st.booleans()), None], ["aave", "withdraw", "@supplied:0", over]]
+        elif mk == "glp":
+            motif = [["glp", "buy_glp", draw(st.sampled_from(["weth", "usdc"])), "0.3"], ["glp", "sell_glp", draw(st.sampled_from(["weth", "usdc", "wavax"])), over]]
+        else:
+            motif = [["gm", "deposit", "0.3", "0.1"], ["gm", "withdraw", over]]
+        bar = draw(st.integers(0, nbars - 1)) if mode == "loop" else 0
+        at = draw(st.integers(0, len(prog)))
+        prog = prog[:at] + [[bar, "on"] + m for m in motif] + prog[at:]
     if mode == "loop":
         prog.sort(key=lambda o: o[0])
     return prog
